@@ -16,7 +16,7 @@ def sh(cmd, cwd=None, env=None):
 def main():
     sid, idx, props = sys.argv[1], sys.argv[2], sys.argv[3:]
     out = os.environ.get('SEED_OUT') or '/tmp/seed/out_%s' % sid
-    wt = '/tmp/seed/wt_%s' % sid
+    wt = os.environ.get('SEED_WT') or '/tmp/seed/wt_%s' % sid
     patch = '%s/patch%s.diff' % (out, idx)
     demo = '%s/demo%s.py' % (out, idx)
     note = '%s/note%s.txt' % (out, idx)
